@@ -283,6 +283,8 @@ pub fn fair_suffix(sim: &mut Sim) {
     }
     // undo "disable the progress" knobs (documented as disabling replication to that peer)
     for i in 0..nn {
+        // group commit deliberately withholds commitment until two groups hold an entry
+        sim.call(i, Call::EnableGroupCommit(false));
         let cap = sim.nodes[i].cfg.max_inflight_msgs as u64;
         for j in 0..nn + 2 {
             sim.call(i, Call::AdjustInflight(j as u64 + 1, cap));
@@ -314,7 +316,19 @@ pub fn fair_suffix(sim: &mut Sim) {
             return;
         }
         let why = v.why.clone();
-        sim.with_mon(|m, _| m.fail("stuck", format!("after {} fair rounds (all nodes running, every message delivered, regular ticks): {}", bound, if why.is_empty() { "injected".to_string() } else { why })));
+        // a follower that asked for a snapshot above the leader's commit index refuses appends
+        // until it gets one, and the leader cannot produce one before it commits that far
+        let mut req_dead = false;
+        for n in &sim.nodes {
+            if let Some(d) = n.driver.as_ref() {
+                let r = &d.node.raft;
+                if r.state == StateRole::Leader && r.prs().iter().any(|(_, p)| p.pending_request_snapshot > r.raft_log.committed) {
+                    req_dead = true;
+                }
+            }
+        }
+        let kind = if req_dead { "stuck-request-snapshot" } else { "stuck" };
+        sim.with_mon(|m, _| m.fail(kind, format!("after {} fair rounds (all nodes running, every message delivered, regular ticks): {}", bound, if why.is_empty() { "injected".to_string() } else { why })));
         return;
     }
     // a fresh proposal must be applied on every running member
